@@ -690,6 +690,9 @@ func dupPredBefore(b *ssa.BasicBlock, pi int) bool {
 func (f *Frame) enterLoop(li *loopInfo, b *ssa.BasicBlock) {
 	e := f.E
 	li.modkeys = f.loopModKeys(li)
+	if _, unknown := li.modkeys["*"]; unknown {
+		e.fail("loop %d of %s calls code with unknown effects (function values); those callees need contracts", li.ordinal, f.Fn)
+	}
 	// 1. invariants on entry (phis currently hold the merged entering values)
 	env := f.loopEnvFor(li, nil)
 	invs := f.loopInvariants(li)
